@@ -11,7 +11,8 @@
     DealerC02.v.  Examples: Router/DealerExamples.v. *)
 From Nexus Require Import Router.Realm Router.DealerLib Router.DealerProofs Router.DealerReg
      Router.DealerCall Router.DealerWfCalls Router.DealerWf Router.DealerRemove
-     Router.DealerReply Router.DealerTimers Router.DealerOwned Router.DealerExamples Router.DealerC02.
+     Router.DealerReply Router.DealerTimers Router.DealerOwned Router.DealerExamples Router.DealerC02
+     Router.DealerTrace.
 
 (** ** reply_owned and final_reply_consumes
     [owned_reply d d' m]: if [m] is a reply for [cid] then [cid] was recorded
@@ -224,3 +225,56 @@ Example junk_harmless_ex :
     sync_yield d3 11 2 [("progress", VBool true)] [] [] = (d3, [(11, RInterrupt 2 [("mode", vstr "killnowait")])]) /\
     sync_error d3 12 1 [] "x" [] [] = (d3, []).
 Proof. vm_compute. repeat split; reflexivity. Qed.
+
+(** ** From steps to histories
+    A call record appears only through [call], and only for the CALL being
+    processed ... *)
+Theorem calls_grow_only_by_call : forall lookup d,
+    dealer_wf lookup d ->
+    (forall lk caller req opts c x,
+        cget (d_calls (fst (cancel lk d caller req opts))) c = Some x -> cget (d_calls d) c = Some x) /\
+    (forall callee req opts args kw c x,
+        cget (d_calls (fst (sync_yield d callee req opts args kw))) c = Some x -> cget (d_calls d) c = Some x) /\
+    (forall callee req det err args kw c x,
+        cget (d_calls (fst (sync_error d callee req det err args kw))) c = Some x -> cget (d_calls d) c = Some x) /\
+    (forall lk now c x,
+        cget (d_calls (fst (fire_timers lk now d))) c = Some x -> cget (d_calls d) c = Some x) /\
+    (forall lk sid c x,
+        cget (d_calls (fst (fst (dealer_remove_session lk d sid)))) c = Some x -> cget (d_calls d) c = Some x) /\
+    (forall cfg callee req opts proc, d_calls (fst (fst (register cfg d callee req opts proc))) = d_calls d) /\
+    (forall sid req regid, d_calls (fst (fst (unregister d sid req regid))) = d_calls d) /\
+    (forall cfg now caller req opts proc args kw oracle,
+        match call cfg lookup now d caller req opts proc args kw oracle with
+        | CallRefused d' _ => forall c x, cget (d_calls d') c = Some x -> cget (d_calls d) c = Some x
+        | CallAbort _ => True
+        | CallInvoked d' _ _ =>
+            forall c x, cget (d_calls d') c = Some x -> cget (d_calls d) c = Some x \/ c = (s_id caller, req)
+        end).
+Proof. exact calls_grow_only_by_call_proof. Qed.
+Print Assumptions calls_grow_only_by_call.
+
+(** ... so, for any history whose steps satisfy the per-step facts ([step_ok]:
+    own / final / add / once — what [reply_owned] and [calls_grow_only_by_call]
+    establish for the dealer functions, with the one documented exception of a
+    final YIELD while the caller is still sending chunks): after a final reply
+    for [cid], a later step sends another reply for [cid] only if a CALL [cid]
+    was issued in between.  This is the per-step form lifted to histories for
+    an abstract labelled transition system; it is not yet instantiated to
+    [Realm.run] (a realm step composes several dealer functions). *)
+Theorem reply_unique_partial : forall (S L : Type) (rec : S -> callid -> Prop) (is_call : L -> callid -> Prop)
+      s0 pre t1 mid t2 post cid m1 m2,
+    chained S L s0 (pre ++ t1 :: mid ++ t2 :: post) ->
+    Forall (step_ok S L rec is_call) (pre ++ t1 :: mid ++ t2 :: post) ->
+    In m1 (outp S L t1) -> reply_of m1 = Some (cid, true) ->
+    In m2 (outp S L t2) -> replies_to cid m2 ->
+    (forall t, In t (mid ++ [t2]) -> ~ is_call (lab S L t) cid) -> False.
+Proof. exact reply_unique_abstract. Qed.
+Print Assumptions reply_unique_partial.
+
+Example reply_unique_partial_ex :
+    chained dealer bool d3 ([] ++ ex_t1 :: [ex_t2] ++ ex_t3 :: []) /\
+    Forall (step_ok dealer bool ex_rec ex_is_call) ([] ++ ex_t1 :: [ex_t2] ++ ex_t3 :: []) /\
+    (exists m1, In m1 (outp _ _ ex_t1) /\ reply_of m1 = Some ((10, 7), true)) /\
+    (exists m2, In m2 (outp _ _ ex_t3) /\ replies_to (10, 7) m2) /\
+    ex_is_call (lab _ _ ex_t2) (10, 7).
+Proof. exact reply_unique_ex. Qed.
